@@ -43,7 +43,7 @@ COMPONENTS = {"real": ["EoN.fast_nonMarkov_SIR", "EoN.fast_SIR (weighted / zero-
               "stub": ["user delay/duration callbacks (keyed tables)", "random source (seeded) for the builders"]}
 
 LAW_N = {"quick": 20000, "thorough": 200000}
-LAW_CFGS = {"quick": 8, "thorough": 32}
+LAW_CFGS = {"quick": 12, "thorough": 48}
 LAW_BATCHES = 4
 
 
@@ -305,17 +305,23 @@ def one_builder(case, rng):
 
 
 # ------------------------------------------------------------------- law
+LAW_KINDS = ["get_infected_nodes", "dir_perc", "dir_perc_noweights", "fast_sir_directed"]
+
+
 def law_cfgs(seed, tier):
     out = []
     for j in range(LAW_CFGS[tier]):
         rng = random.Random(framework.derive_int(seed, PROPERTY, "lawcfg", j))
-        spec = cases.gen_graph(rng, 3, 5, family=rng.choice(["path", "star", "cycle", "complete", "gnp", "tree"]))
+        kind = LAW_KINDS[j % len(LAW_KINDS)]
+        directed = (kind == "fast_sir_directed")
+        spec = cases.gen_graph(rng, 3, 5, family=rng.choice(["path", "star", "cycle", "complete", "gnp", "tree"]),
+                               directed=directed, edge_w="tenth" if directed else None)
         n = len(spec["nodes"])
         idx = list(range(n))
         rng.shuffle(idx)
         I0 = idx[:rng.choice([1, 1, 2])]
         R0 = idx[len(I0):len(I0) + 1] if rng.random() < 0.3 else []
-        out.append({"kind": "get_infected_nodes" if j % 2 == 0 else "dir_perc", "graph": spec,
+        out.append({"kind": kind, "graph": spec,
                     "tau": rng.choice([0.3, 0.7, 1.3]), "gamma": rng.choice([0.3, 0.7, 1.3]), "I0": I0, "R0": R0})
     return out
 
@@ -342,12 +348,27 @@ def law_sample(cfg, n, seed):
         def stat(v):
             s = set(v)
             return [("set", "".join("1" if x in s else "0" for x in labels))]
+    elif cfg["kind"] == "fast_sir_directed":
+        # fast_SIR's weighted path on a DIRECTED contact network with different weights on opposite
+        # edges: the set of nodes ever infected is the out-component of first-passage percolation
+        kw = {"initial_infecteds": [labels[i] for i in cfg["I0"]], "transmission_weight": "w", "return_full_data": True}
+        if cfg["R0"]:
+            kw["initial_recovereds"] = [labels[i] for i in cfg["R0"]]
+
+        def call():
+            return EoN.fast_SIR(G, cfg["tau"], cfg["gamma"], **kw)
+        r0 = {labels[i] for i in cfg["R0"]}
+
+        def stat(inv):
+            d = inv.get_statuses(time=1e300)
+            return [("set", "".join("1" if (d[x] == "R" and x not in r0) else "0" for x in labels))]
     else:
         u = labels[0]
         nb = list(G.neighbors(u))
+        weights = cfg["kind"] == "dir_perc"
 
         def call():
-            return EoN.directed_percolate_network(G, cfg["tau"], cfg["gamma"])
+            return EoN.directed_percolate_network(G, cfg["tau"], cfg["gamma"], weights=weights)
 
         def stat(H):
             return [("out", "".join("1" if H.has_edge(u, v) else "0" for v in nb))]
@@ -355,8 +376,8 @@ def law_sample(cfg, n, seed):
 
 
 def law_expected(cfg):
-    if cfg["kind"] == "get_infected_nodes":
-        ref = CTMC(cfg["graph"], cfg["tau"], cfg["gamma"])
+    if cfg["kind"] in ("get_infected_nodes", "fast_sir_directed"):
+        ref = CTMC(cfg["graph"], cfg["tau"], cfg["gamma"], edge_w="w" if cfg["kind"] == "fast_sir_directed" else None)
         n = len(cfg["graph"]["nodes"])
         st = ["S"] * n
         for i in cfg["I0"]:
